@@ -67,16 +67,35 @@ def catalogue():
     return out
 
 
+def copy_tree(repo, d):
+    """Scratch copy of the working tree of ``repo`` (everything but the git directory and byte-code caches): a variant may add,
+    delete or move files, also outside the package."""
+    for name in sorted(os.listdir(repo)):
+        if name in ('.git', '__pycache__', '.pytest_cache') or name.endswith('.egg-info'):
+            continue
+        src_ = os.path.join(repo, name)
+        if os.path.isdir(src_):
+            shutil.copytree(src_, os.path.join(d, name), ignore=shutil.ignore_patterns('__pycache__', '*.pyc'))
+        else:
+            shutil.copy(src_, d)
+
+
+def apply_patch(d, patch):
+    """True when the patch applied (git apply understands new / deleted / renamed files; patch(1) as a fallback)."""
+    r = subprocess.run(['git', 'apply', '--whitespace=nowarn', os.path.abspath(patch)], cwd=d, capture_output=True, text=True,
+                       env=dict(os.environ, GIT_CEILING_DIRECTORIES=os.path.dirname(d), GIT_DIR=os.path.join(d, '.nogit')))
+    if r.returncode == 0:
+        return True
+    r = subprocess.run(['patch', '-p1', '-s', '-f', '-d', d, '-i', os.path.abspath(patch)], capture_output=True, text=True)
+    return r.returncode == 0
+
+
 def _run_variant(job):
     v, repo, props = job
     d = tempfile.mkdtemp(prefix='hxsa_var_')
     try:
-        subprocess.check_call(['cp', '-r', os.path.join(repo, 'hotxlfp'), d])
-        for extra in ('SUPPORTED_FORMULAS.md', 'README.md'):
-            if os.path.exists(os.path.join(repo, extra)):
-                shutil.copy(os.path.join(repo, extra), d)
-        r = subprocess.run(['patch', '-p1', '-s', '-f', '-d', d, '-i', v['patch']], capture_output=True, text=True)
-        if r.returncode != 0:
+        copy_tree(repo, d)
+        if not apply_patch(d, v['patch']):
             return v, None, 'patch does not apply to the current tree'
         results = {}
         for p in props:
